@@ -283,11 +283,11 @@ def run(ctx):
               {"meas": "all", "lab": STR_LABELS[:3]}, {"meas": "part", "lab": ["q", 7, "a"], "cmap_form": "dict"}]
     plans.append((3, g3, alphabet(3), 3 if q else 4, V_all))
     plans.append((3, g3, alphabet(3), 2 if q else 3, V_more))
-    plans.append((4, g4, alphabet(4), 2, V_all))
+    plans.append((4, g4, alphabet(4), 2, V_all[:1] if q else V_all))
     if not q:
         plans.append((4, g4, alphabet(4, reduced=True), 3, V_all[:1] + [{"meas": "part"}]))
     V4 = [{"meas": "part"}, {"meas": "state", "device": {"name": "default.qubit", "order": "rev"}}]
-    plans.append((4, g4, alphabet(4, reduced=True), 1 if q else 2, V4))
+    plans.append((4, g4, alphabet(4, reduced=True), 1 if q else 2, V4 + (V_all[1:] if q else [])))
     a5 = [["RX", [0], [G]]] + [["CNOT", [a, b]] for a in range(5) for b in range(5) if a != b] + [["SWAP", [0, 4]]]
     plans.append((5, list(SHAPES5.values()), a5, 2, [{"meas": "all"}, {"meas": "part"},
                                                        {"meas": "state", "device": {"name": "default.qubit", "order": "rev"}}]))
